@@ -17,6 +17,21 @@ sys.exit(0)
 '''
 
 
+BLANK_WITNESS = '''\
+import sys, warnings, logging; warnings.simplefilter('ignore'); logging.disable(logging.CRITICAL)
+import formulas
+P = "'[b]S'!"; NB = "'[b]'!NB"
+d = {P + 'H1': 1, P + 'H2': 2, NB: '=%sH3' % P, P + 'K5': '=SUM(%sH1:H3)' % P, P + 'K6': '=%s+1' % NB}
+mk = lambda: formulas.ExcelModel().from_dict(d).finish(complete=False)
+a = mk().calculate(inputs={NB: 5})[P + 'K5'].value[0, 0]
+b = mk().calculate(inputs={P + 'H3': 5})[P + 'K5'].value[0, 0]
+print('K5 = SUM(H1:H3) with NB (-> blank H3) = 5:', a, '; with H3 = 5:', b)
+if float(a) != float(b):
+    print('REPRODUCED: a value supplied through a name does not reach a blank cell that a range reads'); sys.exit(1)
+sys.exit(0)
+'''
+
+
 def run(tier, seed):
     ck = Check('C07', tier, seed, level='exploration')
     import formulas.excel as EX, formulas.cell as CE, formulas.ranges as RG
@@ -27,20 +42,24 @@ def run(tier, seed):
     ck.out_of_scope('histories longer than 3 operations (statement: 8)', 'models loaded from .xlsx files', 'workbooks outside the three template families',
                     'symbolic cell VALUES (numpy / schedula cannot carry proxies)')
     ck.check_known_witness('C07-name-over-error-cell', NAME_WITNESS)
+    ck.check_known_witness('C07-override-does-not-reach-blank-cells', BLANK_WITNESS)
     quick = tier == 'quick'
     src = open(os.path.join(ROOT, 'harness', 'c07_hist.py')).read()
     hs, batch = [], Batch()
     T_ = 170 if quick else 1500
     try:
         for t in range(3):
-            h = Harness(ck, 'c07_rel_t%d' % t, src.replace('__T__', str(t)).replace('__OP1__', 'None')); hs.append(h)
+            s_rel = src.replace('__T__', str(t)).replace('__OP1__', 'None').replace('__KNOWN_NB__', 'True')
+            if quick:
+                s_rel = s_rel.replace('pre: sel(m0, m1, m2, m3, m4, m5, m6) > 0', 'pre: sel(m0, m1, m2, m3, m4, m5, m6) > 0 and sel(i0, i1, i2) in (0, 4, 6)')
+            h = Harness(ck, 'c07_rel_t%d' % t, s_rel); hs.append(h)
             batch.add(h, T_, only=['as_if_constant_ok', 'name_and_range_ok', 'override_formula_ok', 'outputs_ok'], bounds={
                 'as_if_constant_ok': 'template %d, (A1, A2) supplied from the 8 x 8 value pool vs stored as constants' % t,
                 'name_and_range_ok': 'template %d, 8 x 8 pool values through the defined name / the two-cell range vs the cells' % t,
                 'override_formula_ok': 'template %d, formula cell B1 overridden by each of 8 pool values' % t,
-                'outputs_ok': 'template %d, all 127 non-empty output subsets x 8 pool values' % t})
+                'outputs_ok': 'template %d, all 127 non-empty output subsets x %s pool values' % (t, '3' if quick else '8')})
             for op1 in range(14):
-                h = Harness(ck, 'c07_hist_t%d_op%d' % (t, op1), src.replace('__T__', str(t)).replace('__OP1__', str(op1))); hs.append(h)
+                h = Harness(ck, 'c07_hist_t%d_op%d' % (t, op1), src.replace('__T__', str(t)).replace('__OP1__', str(op1)).replace('__KNOWN_NB__', 'True')); hs.append(h)
                 batch.add(h, T_, only=['history2_ok'] if quick else ['history3_ok'],
                           bounds='template %d, history starting with operation %d, %s, then one of 15 override sets; compared with a fresh model' % (
                               t, op1, 'any second operation of 14' if quick else 'any second and third operation of 14'))
